@@ -14,6 +14,8 @@ for src in sorted(glob.glob("/tmp/seed/out/%s-C*/[ab]" % prefix)):
     for t in tests:
         m = re.search(r"^package (\w+)", open(t).read(), re.M)
         pk = m.group(1)
+        if pk.endswith("_test"):
+            pk = pk[:-5]  # external test package of the same directory
         if pk == "main":
             readme = open(src + "/README.md").read() if os.path.exists(src + "/README.md") else ""
             pk = "cmd/thermal-writer" if readme.count("thermal-writer") > readme.count("cmd/thermal-recorder") else "cmd/thermal-recorder"
